@@ -440,6 +440,45 @@ def extract_guards(src: Path) -> str:
             NAMES.clear()
     except Exception as e:
         fail("h11Recycle", str(e))
+    # the exit path of both `worker_serve`s (C15 bounded): what is awaited between `context.terminated.set()` and the wait for the
+    # connection handlers that `graceful_timeout` bounds.  asyncio: nothing (an `await server.wait_closed()` there waits, on
+    # CPython >= 3.12.1, for every open connection: `Runtime.waitClosedBlocksOnConnections`); trio: the deadline assignment is the
+    # next statement.  Any other suspension there is not translated.
+    try:
+        fn = find_def(parse(src / "asyncio/run.py"), "worker_serve")
+        tries = [n for n in ast.walk(fn) if isinstance(n, ast.Try)  # type: ignore
+                 and any(ast.unparse(st) == "await context.terminated.set()" for st in n.finalbody)]
+        if len(tries) != 1:
+            fail("asyncioExitPath", "no single `try: … finally: await context.terminated.set() …` in asyncio worker_serve")
+        else:
+            fb = tries[0].finalbody
+            drain = [k for k, st in enumerate(fb) if isinstance(st, ast.Try) and "graceful_timeout" in ast.unparse(st.body)]
+            waits = [ast.unparse(n).replace(" ", "") for st in (fb[drain[0]].body if drain else []) for n in ast.walk(st) if isinstance(n, ast.Await)]
+            if ast.unparse(fb[0]) != "await context.terminated.set()" or len(drain) != 1:
+                fail("asyncioExitPath", "the finally block does not start with `await context.terminated.set()` followed (later) by one `try:` that waits with graceful_timeout")
+            elif waits != ["awaitasyncio.wait_for(gathered_server_tasks,config.graceful_timeout)"]:
+                fail("asyncioExitPath", f"the bounded wait for the handlers is {waits}")
+            else:
+                between = [ast.unparse(n.value.func) for st in fb[1:drain[0]] for n in ast.walk(st)
+                           if isinstance(n, ast.Await) and isinstance(n.value, ast.Call)]
+                other = [c for c in between if not c.endswith(".wait_closed")]
+                bare = [ast.unparse(n) for st in fb[1:drain[0]] for n in ast.walk(st) if isinstance(n, ast.Await) and not isinstance(n.value, ast.Call)]
+                if other or bare:
+                    fail("asyncioExitPath", f"awaited between terminated.set() and the bounded wait: {other + bare}")
+                else:
+                    out.append(f"def asyncioWaitClosedBeforeDrain : Bool := {'true' if between else 'false'}"
+                               f"   -- awaited between `context.terminated.set()` and `wait_for(gather(*server_tasks), graceful_timeout)` in asyncio/run.py: {between}")
+        fn = find_def(parse(src / "trio/run.py"), "worker_serve")
+        tries = [n for n in ast.walk(fn) if isinstance(n, ast.Try)  # type: ignore
+                 and any(ast.unparse(st) == "await context.terminated.set()" for st in n.finalbody)]
+        want = ["await context.terminated.set()", "server_nursery.cancel_scope.deadline = trio.current_time() + config.graceful_timeout"]
+        if len(tries) != 1 or [ast.unparse(st) for st in tries[0].finalbody] != want:
+            fail("trioExitPath", f"the finally block of trio worker_serve is not {want}")
+        else:
+            out.append("def trioDeadlineFollowsTerminated : Bool := true   -- `await context.terminated.set(); server_nursery.cancel_scope.deadline = "
+                       "trio.current_time() + config.graceful_timeout` in trio/run.py")
+    except Exception as e:
+        fail("exitPath", str(e))
     # suppress_body
     try:
         fn = find_def(parse(src / "utils.py"), "suppress_body")
@@ -1124,6 +1163,78 @@ def extract_app_exit(src: Path) -> str:
     return "\n".join(out)
 
 
+def extract_h2_init(src: Path) -> str:
+    """C13: `H2Protocol.initiate` - for which `settings` argument the upgrade entry point of h2
+    (`initiate_upgrade_connection`, which reserves stream 1 half-closed) is used rather than `initiate_connection`."""
+    out = ["/- GENERATED by tools/extract.py — H2Protocol.initiate: choice of the h2 entry point — do not edit -/",
+           "import HC.Prelude", "namespace HC.Extracted.H2Init"]
+
+    def tr(n: ast.AST) -> Optional[str]:
+        """a Python test over `settings: Optional[str]` as a Lean Bool over `settings : Option HC.Bytes`"""
+        if isinstance(n, ast.Name) and n.id == "settings":
+            return "(match settings with | some b => !b.isEmpty | none => false)"          # truthiness of an Optional[str]
+        if isinstance(n, ast.UnaryOp) and isinstance(n.op, ast.Not):
+            x = tr(n.operand)
+            return None if x is None else f"(!{x})"
+        if isinstance(n, ast.BoolOp):
+            xs = [tr(v) for v in n.values]
+            if None in xs:
+                return None
+            return "(" + (" && " if isinstance(n.op, ast.And) else " || ").join(xs) + ")"  # type: ignore
+        if isinstance(n, ast.Compare) and len(n.ops) == 1 and isinstance(n.left, ast.Name) and n.left.id == "settings":
+            op, rhs = n.ops[0], n.comparators[0]
+            if isinstance(rhs, ast.Constant) and rhs.value is None and isinstance(op, (ast.IsNot, ast.NotEq)):
+                return "settings.isSome"
+            if isinstance(rhs, ast.Constant) and rhs.value is None and isinstance(op, (ast.Is, ast.Eq)):
+                return "settings.isNone"
+            if isinstance(rhs, ast.Constant) and rhs.value == "" and isinstance(op, ast.NotEq):
+                return "(settings != some [])"
+            if isinstance(rhs, ast.Constant) and rhs.value == "" and isinstance(op, ast.Eq):
+                return "(settings == some [])"
+        return None
+
+    try:
+        fn = find_def(parse(src / "protocol/h2.py"), "H2Protocol", "initiate")
+        argn = [a.arg for a in fn.args.args]  # type: ignore
+        site = None
+        for n in ast.walk(fn):  # type: ignore
+            if isinstance(n, ast.If):
+                b, o = _calls_in_order(n.body), _calls_in_order(n.orelse)
+                up, pl = "self.connection.initiate_upgrade_connection", "self.connection.initiate_connection"
+                if up in b and pl in o and up not in o and pl not in b:
+                    site = (n.test, False)
+                elif up in o and pl in b and up not in b and pl not in o:
+                    site = (n.test, True)
+        if argn != ["self", "headers", "settings"] or site is None:
+            fail("h2 initiate", f"shape not recognised (arguments {argn}; if/else between the two h2 entry points {'found' if site else 'not found'})")
+        else:
+            x = tr(site[0])
+            if x is None:
+                fail("h2 initiate", f"test `{ast.unparse(site[0])}` not translatable")
+            else:
+                out.append(f"def upgradePath (settings : Option HC.Bytes) : Bool :=\n  {'!' if site[1] else ''}{x}   -- `{ast.unparse(site[0])}`")
+        # the wrapper hands `error.settings` (a str, never None) to initiate only for the h2c switch
+        w = parse(src / "protocol/__init__.py")
+        hfn = find_def(w, "ProtocolWrapper", "handle")
+        calls = {}
+        for h in [n for n in ast.walk(hfn) if isinstance(n, ast.ExceptHandler)]:  # type: ignore
+            for c in ast.walk(h):
+                if isinstance(c, ast.Call) and ast.unparse(c.func) == "self.protocol.initiate":
+                    calls[ast.unparse(h.type)] = [ast.unparse(a) for a in c.args]
+        if calls != {"H2ProtocolAssumedError": [], "H2CProtocolRequiredError": ["error.headers", "error.settings"]}:
+            fail("wrapper initiate", f"initiate calls per switch are {calls}")
+        efn = find_def(parse(src / "protocol/h11.py"), "H2CProtocolRequiredError", "__init__")
+        first = ast.unparse(efn.body[0]) if efn is not None and efn.body else ""  # type: ignore
+        if first not in ("settings = ''", 'settings = ""'):
+            fail("h2c settings default", f"H2CProtocolRequiredError.__init__ starts with `{first}`")
+        else:
+            out.append("def h2cSettingsDefaultEmpty : Bool := true   -- `settings = \"\"` unless an HTTP2-Settings header is present")
+    except Exception as e:
+        fail("h2 initiate", f"{type(e).__name__}: {e}")
+    out += ["end HC.Extracted.H2Init", ""]
+    return "\n".join(out)
+
+
 def main() -> int:
     ap = argparse.ArgumentParser()
     ap.add_argument("--repo", default="/repo")
@@ -1134,7 +1245,7 @@ def main() -> int:
     outd.mkdir(parents=True, exist_ok=True)
     for name, fn in [("Cli", extract_cli), ("Consts", extract_consts), ("Guards", extract_guards), ("Excepts", extract_excepts),
                      ("H11Tables", extract_h11_tables), ("Limits", extract_limits), ("Atomic", extract_atomic), ("Runtime", extract_runtime),
-                     ("AppExit", extract_app_exit)]:
+                     ("AppExit", extract_app_exit), ("H2Init", extract_h2_init)]:
         CURRENT[0] = name
         try:
             text = fn(src)
@@ -1168,6 +1279,18 @@ def main() -> int:
         print(f"EXTRACT ReqGlue.lean {'updated' if changed else 'unchanged'}")
     except Exception as e:
         fail("ReqGlue", f"{type(e).__name__}: {e}")
+    # C17 / C19 / C20: object / key / filter choices of the WSGI wrapper, Config.from_object and the HTTPS redirect
+    # (tools/extract_pure.py; one generated module and EXTRACT-FAIL tag per property)
+    CURRENT[0] = "PureSites"
+    try:
+        import extract_pure
+        for name, text in extract_pure.run(src, sys.modules[__name__]).items():
+            changed = write_if_changed(outd / f"{name}.lean", text)
+            print(f"EXTRACT {name}.lean {'updated' if changed else 'unchanged'}")
+    except Exception as e:
+        for name in ("WsgiSites", "ConfigSites", "RedirectSites"):
+            CURRENT[0] = name
+            fail(name, f"{type(e).__name__}: {e}")
     for f in FAILS:
         print(f)
     return 1 if FAILS else 0
